@@ -56,6 +56,7 @@ func runC05(c *Ctx) {
 		}
 	}()
 	c05SignalSequences(c)
+	c05ClusterSubmitWindow(c)
 	r.Rule = "signal sequences: an mrp-like helper process (SetupSignalHandlers, InvokePipeline) inside a critical section receives every sequence of one or two handled signals (TERM/INT/HUP), the second while the first waits for the critical section: it must terminate after the section ends with _lock removed; programs as for C02; for each program one uninterrupted reference run, then runs with mrp killed (SIGKILL semantics: object dropped, _lock removed by the operator, in-flight jobs die with a dead pid recorded, or survive with probability 0.3) before event k for k ranging over the reference history (quick: a PRNG sample of crash points per program + double crashes; thorough: every event index of histories up to 60 events, 60 evenly spread points of longer ones), restarted the way mrp restarts (Reattach with source check, Reset, RestartLocalJobs, LoadMetadata), every fourth single-crash run in Config.FullStageReset mode (there finished work of a Running/Failed node is redone by design and not reported); monitors: the restarted pipestance completes, its top-level outputs equal the reference run's, no job whose successful completion was recorded before the crash is executed again, _lock is gone after completion; every history (with crash/restart/reset events) is replayed in the Lean Sched model (`mode fullreset` for the FullStageReset runs) and must end in a model state in which every node is finished; non-trivial = crash happened while >=1 job was in flight or finished-but-unnoticed; distinct = (program, crash points, history) hash"
 	n := 40
 	perProg := 4
